@@ -1,23 +1,30 @@
 #!/venv/bin/python
-"""make_lock.py: (re)generate obligations.lock.json from the matcher sweep of the CURRENT tree: the obligations discharged
-now are the ones claimed as proved from now on.  Run by hand on the unchanged tree only."""
-import json, os, sys, subprocess
+"""make_lock.py [quick] [thorough]: (re)generate obligations.lock.json from the matcher sweeps of the CURRENT tree (cached sweeps are
+reused; a missing one is computed).  'proved' = discharged in the quick sweep (claimed in both tiers); 'proved_thorough' = additionally
+discharged in the thorough sweep (claimed in the thorough tier only).  Run by hand on the unchanged tree only."""
+import json, os, sys, subprocess, glob
 env = dict(os.environ, PYTHONPATH='/verif:/verif/.deps:/repo')
-code = "from pydv import instr; instr.install(); from pydv import msweep; import json,sys; r=msweep.sweep(sys.argv[1]); print(r['key'])"
-proved = None; props = {}
+code = "from pydv import instr; instr.install(); from pydv import msweep; import sys; r=msweep.sweep(sys.argv[1]); print(r['key'])"
+sets = {}; props = {}
 for tier in sys.argv[1:] or ['quick']:
-    subprocess.run(['/venv/bin/python', '-W', 'ignore', '-c', code, tier], env=env, check=True)
-    import glob
-    f = sorted(glob.glob(f'/verif/.cache/msweep-{tier}-*.json'), key=os.path.getmtime)[-1]
-    r = json.load(open(f))
+    key = subprocess.run(['/venv/bin/python', '-W', 'ignore', '-c', code, tier], env=env, check=True, capture_output=True, text=True).stdout.strip().splitlines()[-1]
+    r = json.load(open(f'/verif/.cache/msweep-{tier}-{key}.json'))
     ok = set()
     for t in r['types']:
-        if any(o['status'] in ('undecided', 'crash') for o in t['obligations']):
-            continue      # a type that needs more than the budget is not claimed at all
+        if any(o['status'] in ('crash',) for o in t['obligations']):
+            continue
+        undec = any(o['status'] == 'undecided' for o in t['obligations'])
         for o in t['obligations']:
-            if o['status'] == 'discharged':
+            if o['status'] == 'discharged' and not (undec and o.get('needs_inv')):
                 ok.add(o['oid']); props[o['oid']] = o['props']
-    proved = ok if proved is None else proved & ok
-json.dump({'_comment': 'obligations of pydv/msweep that were discharged on the unchanged tree; a check run must discharge exactly these',
-           'proved': sorted(proved), 'props': {k: props[k] for k in sorted(proved)}}, open('/verif/obligations.lock.json', 'w'), indent=0)
-print(len(proved), 'obligations locked')
+        if undec:
+            # a type that ran over budget is not claimed at all in this tier
+            ok -= {o['oid'] for o in t['obligations']}
+    sets[tier] = ok
+old = json.load(open('/verif/obligations.lock.json')) if os.path.exists('/verif/obligations.lock.json') else {}
+quick = sets.get('quick', set(old.get('proved', [])))
+thor = sets.get('thorough', set(old.get('proved_thorough', [])) | quick) - quick
+allp = dict(old.get('props', {})); allp.update(props)
+json.dump({'_comment': 'obligations of pydv/msweep discharged on the unchanged tree; a check run must discharge exactly these (proved: both tiers; proved_thorough: thorough tier only)',
+           'proved': sorted(quick), 'proved_thorough': sorted(thor), 'props': {k: allp[k] for k in sorted(quick | thor) if k in allp}}, open('/verif/obligations.lock.json', 'w'), indent=0)
+print(len(quick), 'obligations locked for both tiers,', len(thor), 'more for the thorough tier')
